@@ -23,7 +23,7 @@ from pathlib import Path
 from typing import Any, Callable, Iterable, Optional
 
 VERIF = Path(__file__).resolve().parents[2]
-LEAN = VERIF / "lean"
+LEAN = Path(os.environ.get("VERIF_LEAN", str(VERIF / "lean"))).resolve()   # scratch runs use a private copy (Gen is rewritten)
 REPO = Path(os.environ.get("OPERON_REPO", "/repo")).resolve()
 OUT = Path(os.environ.get("VERIF_OUT", str(VERIF))).resolve()   # evidence/ and replays/ go here (scratch runs)
 ALLOWED_AXIOMS = {"propext", "Classical.choice", "Quot.sound"}
